@@ -596,7 +596,7 @@ META = dict(
                 'whose returned index map relates new to old vertices; carried subdomain/boundary names designate entities with the same vertices, '
                 'names of removed entities disappear; translated/scaled/morphed/mirrored give T(p) for symbolic parameters and leave t, tags and '
                 'the operand untouched; mirrored flips the determinant; oriented() makes every determinant positive (path-wise inequality); '
-                'to_meshtri: triangles inside one parent, areas add up, tags carried; extrusion places the prism vertices.',
+                'to_meshtri: triangles inside one parent, areas add up, tags carried; extrusion (triangle x line, line x line) fills every pair of consecutive levels once whatever the storage order of the nodes; joins (m1 + m2, m1 @ m2, remove_duplicate_nodes) of the two parts of a symbolic mesh keep every cell on its vertices with one vertex per distinct point.',
     symbolic='vertex coordinates, translation, scale factors, mirror normal and point, extrusion levels',
     bounds=dict(restrict='ALL ordered selections (sorted and unsorted) of the cells of 2-3 cell meshes with tags on every cell subset and every facet',
                 split='quadrilateral pairs in 3 (thorough 16) cyclic shifts, both styles'),
